@@ -183,7 +183,7 @@ def compare(exp, obs, check_doc=True):
             continue
         if rstobs.norm_ws(e["sig"]) != o["sig"]:
             msgs.append(f"signature: {where} expected {e['sig']!r} observed {o['sig']!r}")
-        if check_doc and e["doc"] and not rstobs.contains_run(o["doc"], e["doc"]):
+        if check_doc and rstobs.strip_blank(e["doc"]) and not rstobs.contains_run(o["doc"], rstobs.strip_blank(e["doc"])):
             msgs.append(f"doc: {where} doc text missing from its block: {o['doc']!r}")
         if e["kind"] == "class":
             if e["bases"] != o["bases"]:
@@ -203,7 +203,8 @@ def compare(exp, obs, check_doc=True):
                     et = [(f"type {p}", t) for p, t in zip(m["params"], m["types"])]
                     if tf != et:
                         msgs.append(f"member-types: {where} {m['name']} expected {et} observed {tf}")
-                    if check_doc and m["doc"] and not rstobs.contains_run(om["doc"], m["doc"]):
+                    if check_doc and rstobs.strip_blank(m["doc"]) and \
+                            not rstobs.contains_run(om["doc"], rstobs.strip_blank(m["doc"])):
                         msgs.append(f"doc: {where} member {m['name']} doc text missing")
             ea = [(a["name"], a["has_value"], a["value"]) for a in e["attrs"]]
             oa = [(a["name"], a["has_value"], a["value"] if a["has_value"] else None) for a in o["attrs"]]
